@@ -536,6 +536,9 @@ class Exec:
             return None
         tail = segs[-1]
         cands = [n for n in fns if n == tail or n.endswith('::' + tail)]
+        if len(segs) == 1:
+            # a bare name is a free function (possibly imported from another crate), never a method of an impl block
+            cands = [n for n in cands if '<impl' not in n]
         if len(cands) > 1 and len(segs) >= 2:
             # Type::method -> `<module>::<impl at ..>::method` whose header names Type (inherent impl)
             c2 = []
